@@ -551,7 +551,8 @@ pub fn gen_msg(rng: &mut Rng, cfg: &PacketCfg) -> Msg {
         id: rng.next_u64() as u16,
         flags,
         q: Some(Question {
-            name: name_gen(rng),
+            // the root name now and then (the priming query ". NS")
+            name: if rng.chance(1, 30) { Name::root() } else { name_gen(rng) },
             // including codes that mean something special elsewhere (OPT, DNAME, CNAME, 0, 65535)
             qtype: *rng.pick(&[1u16, 1, 28, 2, 15, 6, 255, 12, 16, 41, 41, 39, 5, 0, 65535, 250]),
             qclass: 1,
@@ -584,7 +585,7 @@ pub fn gen_msg(rng: &mut Rng, cfg: &PacketCfg) -> Msg {
     }
     // crowd: one section with more than 255 records, so that its count needs both header bytes
     // and a deletion or insertion crosses the 255/256 boundary
-    if cfg.shape == Shape::Many && rng.chance(1, 12) {
+    if cfg.shape == Shape::Many && rng.chance(1, 36) {
         let s = if cfg.response { rng.below(3) } else { 2 };
         let want = rng.range(254, 258);
         while m.sec[s].len() < want {
